@@ -5,12 +5,12 @@ From V Require Import base.Cal iso.IsoBase iso.IsoModel iso.IsoSpec iso.IsoGenLi
 Import ListNotations.
 Open Scope Z_scope.
 
-Theorem gen_isoparse_equiv sep s : gen_isoparse (sep_bytes sep) s = lift (iso_denotes sep s).
+Theorem gen_isoparse_equiv sep i : gen_isoparse (sep_bytes sep) i = lift (iso_denotes sep (codes i)).
 Proof. rewrite gen_isoparse_eq. apply isoparse_equiv. Qed.
 
-Theorem gen_aux_equiv s z :
-  gen_parse_isodate s = lift (date_denotes s) /\ gen_parse_isotime s = lift (time_denotes s) /\
-  gen_parse_tzstr s z = lift (tzstr_denotes z s).
+Theorem gen_aux_equiv i z :
+  gen_parse_isodate i = lift (date_denotes (codes i)) /\ gen_parse_isotime i = lift (time_denotes (codes i)) /\
+  gen_parse_tzstr i z = lift (tzstr_denotes z (codes i)).
 Proof.
   rewrite gen_parse_isodate_eq, gen_parse_isotime_eq, gen_parse_tzstr_eq.
   repeat split; [apply parse_isodate_equiv | apply parse_isotime_equiv | apply parse_tzstr_equiv].
@@ -18,10 +18,11 @@ Qed.
 
 Theorem gen_isoparse_render f sep o dt :
   wf_fmt f sep o = true -> valid_dt dt = true ->
-  gen_isoparse (sep_bytes sep) (render_iso f dt o) = Ok (expected f dt o).
-Proof. intros. rewrite gen_isoparse_eq. now apply isoparse_render. Qed.
+  forall i, codes i = render_iso f dt o -> gen_isoparse (sep_bytes sep) i = Ok (expected f dt o).
+Proof. intros W V i E. rewrite gen_isoparse_eq, E. now apply isoparse_render. Qed.
 
 Theorem gen_isoparse_2400 f sep o y m d :
   wf_fmt_2400 f sep o = true -> valid_ymd y m d = true ->
-  gen_isoparse (sep_bytes sep) (render_iso_2400 f (y, m, d) o) = lift (expected_2400 (y, m, d) o).
-Proof. intros. rewrite gen_isoparse_eq. now apply isoparse_2400. Qed.
+  forall i, codes i = render_iso_2400 f (y, m, d) o ->
+  gen_isoparse (sep_bytes sep) i = lift (expected_2400 (y, m, d) o).
+Proof. intros W V i E. rewrite gen_isoparse_eq, E. now apply isoparse_2400. Qed.
